@@ -242,7 +242,7 @@ MANIFEST = dict(
     "difficulties, every slot count 1..192, 0..8 tempo events anywhere incl. after the last note, long notes within and "
     "across packages on overlapping columns, auto-play channels) agree with an independent decoder on every hit, hold "
     "start, hold length, tempo point and header field; the decoder also agrees with reamber on the two real files. "
-    "Sampling cannot prove absence; the reader has few branches and each is labelled in the evidence.",
+    "Sampling cannot prove absence; the reader has few branches and each is labelled in the evidence. Thorough adds an atheris/libFuzzer campaign on the same strategy (coverage.fuzz in the evidence).",
     level_note="trusted: vlib/ref/ojn.py (struct decoder, ~150 lines), vlib/ref/timing.py, Hypothesis; domain: well-formed "
     "files without measure-fraction packages, one package per (measure, channel), packages in measure order, tempo "
     "events at distinct positions",
